@@ -82,6 +82,10 @@ func (o *OracleC03) After(x *Exec, op *Op, res *Res) {
 	// validator-share sums per asset
 	for _, denom := range s.AssetOrder {
 		a := s.Assets[denom]
+		if x.PrecisionCollapsed(denom) {
+			x.KnownFinding("F-C04a")
+			continue
+		}
 		if a.TotalValidatorShares.IsNegative() {
 			// dust-sized negative total: the rounding clamp zeroed the validator's record while the
 			// asset total was reduced by the (slightly larger) computed amount — listed finding F-C03
